@@ -351,6 +351,13 @@ def gen_group_swap_rules(rng, letters, cellvals):
         "noback pass2 !_%d[@%s] @%s" % (rng.range(1, 3), rng.choice(cs), rng.choice(cs)), 'noback correct !_%d[$l]"%s" *' % (rng.range(1, 2), a),
         "noback context !_%d[$l] ?" % rng.range(1, 3), "nofor pass2 !@%s[@%s] ?" % (rng.choice(cs), rng.choice(cs)), "noback pass2 [@%s]!@%s ?" % (rng.choice(cs), rng.choice(cs)),
         "nofor pass2 [@%s]!$a @%s" % (rng.choice(cs), rng.choice(cs)), "nofor pass4 !_1!@%s[$a] ?" % rng.choice(cs),
+        # searches (/) followed by every kind of test item: attributes with counts, negation, look-back, brackets, swap
+        # classes, grouping characters
+        "noback pass2 @%s/$a%s ?" % (rng.choice(cs), cnt()), "noback pass2 @%s/!@%s ?" % (rng.choice(cs), rng.choice(cs)),
+        "noback pass2 @%s/_1@%s ?" % (rng.choice(cs), rng.choice(cs)), "noback pass2 @%s/[@%s] ?" % (rng.choice(cs), rng.choice(cs)),
+        "noback pass2 @%s/%%ss ?" % rng.choice(cs), "noback pass2 @%s/{gp ?" % rng.choice(cs), "noback pass2 @%s/}gp ?" % rng.choice(cs),
+        'noback correct "%s"/$l%s ?' % (a, cnt()), 'noback correct "%s"/!$l"%s" ?' % (a, b), "noback pass3 @%s/!$a ?" % rng.choice(cs),
+        "noback pass2 @%s/$a1-2@%s @%s" % (rng.choice(cs), rng.choice(cs), rng.choice(cs)), "noback pass2 @%s/@%s[] @%s" % (rng.choice(cs), rng.choice(cs), rng.choice(cs)),
         # multipass variables: counters with comparisons, increments and decrements (the index range comes from NUMVAR)
         "noback pass2 #%d<2@%s @%s#%d+" % (vn, rng.choice(cs), rng.choice(cs), vn), "noback pass2 #%d>0@%s @%s#%d-" % (vn, rng.choice(cs), rng.choice(cs), vn),
         "noback pass3 #%d<=1@%s @%s#%d+" % (vm, rng.choice(cs), rng.choice(cs), vm), "noback pass2 #%d>=1@%s ?" % (vn, rng.choice(cs)),
